@@ -98,7 +98,7 @@ def main(tier, seed):
     run = Run("C05", tier, seed)
     rows = matrix.enumerate_rows(run, "Lex", "Lex_%s.cfg" % tier, heap="8g")
     extra = extra_texts(tier, seed) + error_cases()
-    matrix.judge(run, "LexTrace", "adapters.lex", "run_row", rows + extra, sig, corrupt, chunk=3000,
+    matrix.judge(run, "LexTrace", "adapters.lex", "run_row", rows + extra, sig, corrupt, chunk=3000, hard_timeout=45,
                  what=lambda t, s: json.dumps({k: v for k, v in t["item"].items() if k not in ("cps",)})[:300],
                  nontrivial=lambda t: json.dumps(t["steps"][0]["post"]["text"]),
                  sample_fmt=lambda t: {"text": "".join(chr(c) for c in t["steps"][0]["post"].get("text", []))[:80] if isinstance(t["steps"][0]["post"].get("text"), list) else t["steps"][0]["post"].get("text"),
